@@ -1,5 +1,6 @@
 import TsVerif.C05.Props
 import TsVerif.C05.VerifyProps
+import TsVerif.C05.GroupProps
 #print axioms TsVerif.C05.mem_seqOne_iff
 #print axioms TsVerif.C05.mem_seqMany_iff
 #print axioms TsVerif.C05.mem_seq_iff
@@ -22,3 +23,9 @@ import TsVerif.C05.VerifyProps
 #print axioms TsVerif.C05.verifyAnywhere_iff
 #print axioms TsVerif.C05.verifyAnywhere_sound
 #print axioms TsVerif.C05.verifyAnywhere_complete
+#print axioms TsVerif.C05.SatVsK_len
+#print axioms TsVerif.C05.expandBs_sound
+#print axioms TsVerif.C05.expandBs_complete
+#print axioms TsVerif.C05.expandBs_direct
+#print axioms TsVerif.C05.satVsK_finalize
+#print axioms TsVerif.C05.buildNode_direct
